@@ -73,9 +73,37 @@ def classify(splitter, combiner, got_groups, exp_groups):
         return None
     if [g for g in got_groups if g] != exp_groups:
         return None
-    if H.singleton_nonfirst(splitter):
-        return None
     return KLASS if removal_defect(splitter, combiner) else None
+
+
+KLASS_X = "full-combine-through-cross-linked-axes"
+
+
+def max_operand_axes(t):
+    """largest number of axes of an operand of an inner product in the tree (0 if none)"""
+    if SP.is_field(t):
+        return 0
+    m = max(max_operand_axes(c) for c in t)
+    if isinstance(t, tuple) and len(t) > 1:
+        m = max([m] + [len(SP.axes(c)) for c in t])
+    return m
+
+
+def classify_type_error(splitter, combiner, r, n_jobs):
+    """narrow class of the second C02 finding: every axis is combined only THROUGH the inner-product
+    links of multi-axis operands (the combiner names no axis completely on its own side, i.e. it is
+    not closed), all jobs ran, and the submission then fails the output type check"""
+    closure = SP.combined_closure(splitter, combiner)
+    if (
+        r["stage"] == "call"
+        and (r["exc"] or "").startswith("TypeError: Incorrect type for field")
+        and r["body_calls"] == n_jobs
+        and not SP.remaining_fields(splitter, combiner)
+        and closure != set(combiner)
+        and max_operand_axes(splitter) >= 2
+    ):
+        return KLASS_X
+    return None
 
 
 def check_state_case(splitter, combiner, lens):
@@ -123,6 +151,7 @@ def check_e2e_case(e2e, splitter, combiner, lens):
     why, got, klass = None, None, None
     if r["exc"] is not None:
         why = f"raised at {r['stage']}: {r['exc']}"
+        klass = classify_type_error(splitter, combiner, r, len(enum))
     else:
         got = H.plain(r["out"])
         if got != exp:
@@ -192,9 +221,13 @@ def _collect(ctx, dom, results):
 
 
 def usable(t):
-    """trees the combiner domain ranges over: splittable at all (some length vector in 1..3 is
-    well shaped) and not in the C01/C05 finding class (those are rejected before anything runs)"""
-    return not H.singleton_nonfirst(t)
+    """trees the combiner domain ranges over.  Trees of the C01/C05 finding class (a one-element
+    wrapper as a non-first operand) are rejected as splits on the unchanged tree, so there is nothing
+    to combine; they are probed and come back into the domain as soon as pydra accepts them."""
+    if not H.singleton_nonfirst(t):
+        return True
+    fs = SP.fields_of(t)
+    return not H.state_run(t, {f: H.values_for(f, 1) for f in fs})["rejected"]
 
 
 def run(ctx):
@@ -224,7 +257,7 @@ def _run(ctx):
         dom = ctx.domain(
             "state/full",
             bound="every splitter tree over <= 4 of the fields a,b,c,d (leaves alphabetical, list/tuple nodes of arity >= 2 nested arbitrarily, <= 1 "
-            "one-element wrapper; trees of the C01/C05 class 'singleton-operand-not-first' excluded) x every length vector in {1,2,3}^k for which "
+            "one-element wrapper; trees of the C01/C05 class 'singleton-operand-not-first' excluded while pydra rejects them as splits) x every length vector in {1,2,3}^k for which "
             "the split is well shaped x every non-empty subset of its fields as combiner -- the quantifier of the property",
             rule="one State.prepare_states per (tree, lengths, combiner); non-trivial = >= 2 fields and some length >= 2",
             exhaustive=True,
@@ -247,7 +280,7 @@ def _run(ctx):
         dom = ctx.domain(
             "state/core",
             bound="every splitter tree over <= 4 fields (as in thorough: leaves alphabetical, <= 1 one-element wrapper, class 'singleton-operand-not-first' "
-            "excluded) x every length vector in {1,2}^k for which the split is well shaped x every non-empty combiner subset",
+            "excluded while pydra rejects them as splits) x every length vector in {1,2}^k for which the split is well shaped x every non-empty combiner subset",
             rule="one State.prepare_states per (tree, lengths, combiner); non-trivial = >= 2 fields and some length >= 2",
             exhaustive=True,
         )
@@ -267,26 +300,51 @@ def _run(ctx):
             tasks.append((SP.to_json(t), lv if len(lv) <= per_tree else rnd.sample(lv, per_tree)))
         skipped += _collect(ctx, dom2, H.pmap(_w_state, tasks, serial=True))
         ph.mark('state-4')
-    ctx.note(f"{n_skipped_trees} trees of class singleton-operand-not-first excluded; {skipped} (tree, lengths) pairs skipped because the split itself is ill shaped (C01)")
+    ctx.note(f"{n_skipped_trees} trees of class singleton-operand-not-first excluded (pydra rejects them as splits); {skipped} (tree, lengths) pairs skipped because the split itself is ill shaped (C01)")
 
-    # ---- end to end
-    n_e2e = ctx.pick(60, 2000)
+    # ---- end to end, fixed lengths: every combiner on every tree shape
+    fixed_trees = [t for t in SP.splitter_trees(H.FIELDS, 4 if ctx.thorough else 2, max_wrappers=0, labellings="ordered")]
+    if not ctx.thorough:
+        fixed_trees += [["a", ("b", "c")], [("a", "b"), "c"], ["a", "b", "c"], ["a", ("b", "c", "d")], ["a", ["b", ("c", "d")]], (["a", "b"], ["c", "d"])]
+    else:
+        fixed_trees += [SP.relabel((["a", "b"], ["c", "d"]), dict(zip("abcd", p))) for p in (("b", "a", "d", "c"), ("c", "d", "a", "b"), ("a", "c", "b", "d"), ("d", "b", "c", "a"))]
+    fixed_trees = [t for t in fixed_trees if SP.well_shaped(t, {f: 2 for f in H.FIELDS})]
+    dom_f = ctx.domain(
+        "e2e/lengths-2",
+        bound=("every wrapper-free splitter tree over <= 4 fields (leaves alphabetical) that is well shaped, plus four other labellings of ([a,b],[c,d])" if ctx.thorough
+               else "every wrapper-free splitter tree over <= 2 fields plus [a,(b,c)], [(a,b),c], [a,b,c], [a,(b,c,d)], [a,[b,(c,d)]], ([a,b],[c,d])")
+        + " x every non-empty combiner subset, all lists of length 2",
+        rule="one real submission F.split(tree).combine(combiner)(cache_root=tmp, worker='debug'); key = (tree, combiner); non-trivial = >= 2 fields",
+        exhaustive=True,
+    )
+    cases = []
+    for t in fixed_trees:
+        fs = SP.fields_of(t)
+        for comb in SP.nonempty_subsets(fs):
+            cases.append((SP.to_json(t), comb, {f: 2 for f in fs}))
+    for part in H.pmap(_w_e2e, H.chunks(cases, H.NPROCS * 3), serial=not ctx.thorough, chunksize=1):
+        for tj, comb, lens, f in part:
+            s = SP.from_json(tj)
+            fs = SP.fields_of(s)
+            dom_f.case((SP.canon(s), tuple(comb)), nontrivial=len(fs) >= 2, sample={"splitter": repr(s), "combiner": comb, "lengths": lens})
+            if f:
+                ctx.fail(f["klass"], f["what"], f["case"], domain=dom_f)
+    ph.mark("e2e/lengths-2")
+
+    # ---- end to end, sampled
+    n_e2e = ctx.pick(40, 1500)
     max_jobs = ctx.pick(18, 81)
     dom_e = ctx.domain(
-        "e2e",
-        bound=f"{n_e2e} (tree, lengths in {{1,2,3}}^k, combiner) triples (<= {max_jobs} jobs each) drawn by seed {ctx.seed} (half from wrapper-free trees with arbitrary labellings), plus "
-        "every combiner on [a,b], (a,b), [a,(b,c)], [(a,b),c], [a,b,c], [a,(b,c,d)], [a,[b,(c,d)]] with all lengths 2",
+        "e2e/sampled",
+        bound=f"{n_e2e} (tree, lengths in {{1,2,3}}^k, combiner) triples (<= {max_jobs} jobs each) drawn by seed {ctx.seed} from the state domain (half from wrapper-free "
+        "trees with arbitrary labellings)",
         rule="one real submission F.split(tree).combine(combiner)(cache_root=tmp, worker='debug'); non-trivial = >= 2 fields and some length >= 2",
         exhaustive=False,
     )
     cases = []
-    for t in [["a", "b"], ("a", "b"), ["a", ("b", "c")], [("a", "b"), "c"], ["a", "b", "c"], ["a", ("b", "c", "d")], ["a", ["b", ("c", "d")]]]:
-        fs = SP.fields_of(t)
-        for comb in SP.nonempty_subsets(fs):
-            cases.append((SP.to_json(t), comb, {f: 2 for f in fs}))
     perm_trees = SP.splitter_trees(H.FIELDS, 4, max_wrappers=0, labellings="all")
     tries = 0
-    while len(cases) < n_e2e + 38 and tries < 100000:
+    while len(cases) < n_e2e and tries < 100000:
         tries += 1
         t = rnd.choice(perm_trees if tries % 2 else trees)
         fs = SP.fields_of(t)
@@ -295,7 +353,6 @@ def _run(ctx):
             continue
         comb = rnd.choice(list(SP.nonempty_subsets(fs)))
         cases.append((SP.to_json(t), comb, lens))
-    rnd.shuffle(cases)
     for part in H.pmap(_w_e2e, H.chunks(cases, H.NPROCS * 3), serial=not ctx.thorough, chunksize=1):
         for tj, comb, lens, f in part:
             s = SP.from_json(tj)
